@@ -155,6 +155,14 @@ class Gen:
         if bools and r < 0.12:
             v = self.rng.choice(bools)
             return C("EVar", v), "$" + v
+        nums_ = sc.of_type(lambda t: t == "num")
+        if nums_ and r < 0.2:
+            # a number on its own: everything but 0 counts as true, negative numbers too
+            v = self.rng.choice(nums_)
+            self.features.add("bare-number-condition")
+            if self.rng.random() < 0.3:
+                return C("ENot", C("EVar", v)), "!$" + v
+            return C("EVar", v), "$" + v
         if r < 0.7:
             return self.cmp_expr(sc)
         a, sa = self.cmp_expr(sc)
@@ -307,6 +315,14 @@ class Gen:
             if n > 0 and k < 0.7:
                 self.set_type(sc, v, ("arr", n - 1, "num"))
                 self.features.add("pop")
+                if rng.random() < 0.5 and self.loop_depth == 0:
+                    # the expression form: the value that is taken off goes into a variable, the array (wherever it was
+                    # declared) is one shorter.  In the reference: read the last element, then pop.
+                    w = self.fresh("top")
+                    sc.vars[w] = "num"
+                    self.features.add("pop-expression")
+                    return ([C("SLet", w, C("EIdx", v, C("EInt", zc(n - 1)))), C("SPop", v), C("SEcho", [C("EVar", w), C("EVar", v)])],
+                            [f"let {w} = pop ${v}", f"echo ${w} ${v}"])
                 return [C("SPop", v)], [f"pop ${v}"]
             if n > 0:
                 i = rng.randint(0, n - 1)
